@@ -16,6 +16,7 @@ using namespace verif;
 
 static Region* R;
 static Oracle* O;
+static std::vector<std::string> findings; // occurrences of recorded findings (printed as `oracle-fail known-candidate <id> ...`)
 static long    next_id = 0;
 static long    n_ops = 0, n_ok = 0, n_null = 0, n_throw = 0, n_grow = 0, n_arrays = 0, n_dealloc = 0, n_foreign = 0, n_moves = 0,
             n_cycles = 0, n_bad = 0, n_bad_reported = 0, n_bad_stopped = 0;
@@ -420,6 +421,26 @@ static void run_pool(Rng& g, long nops, std::size_t node_size, std::size_t block
         {
             emit("pool capacity_left", fmt("num %zu", pool->capacity_left()), pool_state(*pool));
             emit("pool next_capacity", fmt("num %zu", pool->next_capacity()), pool_state(*pool));
+            { // C18: the reported maxima are true upper bounds: a request above them never succeeds (and changes nothing)
+                std::size_t mn = Tr::max_node_size(*pool), ma = Tr::max_array_size(*pool), mal = Tr::max_alignment(*pool);
+                auto        before = pool_state(*pool);
+                auto        above = [&](const char* what, auto f) {
+                    void*       p = nullptr;
+                    std::string r = guarded([&] { p = f(); });
+                    if (r.empty())
+                        O->fail(fmt("C18 memory_pool: a request above the reported %s succeeded (%p)", what, p));
+                    else if (r.find("badh") == std::string::npos)
+                        O->fail(fmt("C18/C03 memory_pool: a request above the reported %s ended as `%s`", what, r.c_str()));
+                };
+                if (mn != ns || mal != alignment_for_size(ns))
+                    O->fail(fmt("C18 memory_pool: max_node_size %zu / max_alignment %zu for node size %zu", mn, mal, ns));
+                above("max_node_size", [&] { return Tr::allocate_node(*pool, mn + 1, 1); });
+                above("max_alignment", [&] { return Tr::allocate_node(*pool, 1, mal * 2); });
+                if (arrays && ma < std::size_t(-1) - 2 * mn) // (an exhausted fixed source reports a wrapped, astronomically large figure)
+                    above("max_array_size", [&] { return Tr::allocate_array(*pool, ma / mn + 1, mn, 1); });
+                if (pool_state(*pool) != before)
+                    O->fail("C18 memory_pool: a rejected request changed the pool");
+            }
         }
         else if (k < 84)
         { // C04 cycle oracle: repeating an allocate/release cycle never grows the pool
@@ -1121,6 +1142,45 @@ static void run_coll(Rng& g, long nops, std::size_t max_node, std::size_t block_
             emit(fmt("coll pool_capacity_left %zu", size), fmt("num %zu", c->pool_capacity_left(size)), coll_state(*c));
             emit("coll capacity_left", fmt("num %zu", c->capacity_left()), coll_state(*c));
             emit("coll next_capacity", fmt("num %zu", c->next_capacity()), coll_state(*c));
+            { // C18: the reported maxima are true upper bounds
+                std::size_t mn = Tr::max_node_size(*c), ma = Tr::max_array_size(*c), mal = Tr::max_alignment(*c);
+                auto        before = coll_state(*c);
+                auto        above = [&](const char* what, auto f) {
+                    void*       p = nullptr;
+                    std::string r = guarded([&] { p = f(); });
+                    if (r.empty())
+                        O->fail(fmt("C18 memory_pool_collection: a request above the reported %s succeeded (%p)", what, p));
+                    else if (r.find("badh") == std::string::npos)
+                        O->fail(fmt("C18/C03 memory_pool_collection: a request above the reported %s ended as `%s`", what, r.c_str()));
+                };
+                if (mn != c->max_node_size() || ma != c->next_capacity())
+                    O->fail("C18 memory_pool_collection: traits maxima differ from the members");
+                above("max_node_size", [&] { return Tr::allocate_node(*c, mn + 1, 1); });
+                above("max_alignment", [&] { return Tr::allocate_node(*c, 8, mal * 2); });
+                if (coll_state(*c) != before)
+                    O->fail("C18 memory_pool_collection: a rejected request changed the collection");
+                if (arrays && ma < std::size_t(-1) - 64)
+                { // part of the history (the model sees it): before it rejects the array the collection may already have
+                  // reserved the bucket's default capacity
+                    std::size_t cnt = ma / 8 + 1;
+                    void*       p = nullptr;
+                    long        up0 = R->n_alloc;
+                    std::string r = guarded([&] { p = Tr::allocate_array(*c, cnt, 8, 1); });
+                    if (r.empty())
+                    {
+                        if (R->n_alloc - up0 >= 2)
+                            // recorded finding D33: the size is checked against next_capacity() only after the first of two
+                            // block acquisitions of the same call, i.e. against a larger figure than the one reported before
+                            findings.push_back(fmt("known-candidate D33 memory_pool_collection::allocate_array(%zu, 8) = %zu bytes succeeded although "
+                                                   "max_array_size() was %zu before the call (the call acquired %ld blocks)",
+                                                   cnt, cnt * 8, ma, R->n_alloc - up0));
+                        else
+                            O->fail(fmt("C18 memory_pool_collection: a request above the reported max_array_size succeeded (%p)", p));
+                        add_live(p, true, cnt, 8, true, "coll.traits.allocate_array(above max)");
+                    }
+                    emit(fmt("coll t_alloc_array %zu 8 1", cnt), r.empty() ? fmt("ok %zu", R->off(p)) : r, coll_state(*c));
+                }
+            }
         }
         else if (k < 84)
         {
@@ -1358,6 +1418,8 @@ int main(int argc, char** argv)
     if (!region.outstanding.empty())
         std::printf("oracle-fail ledger: %zu upstream block(s) never released (first off=%zu size=%zu)\n",
                     region.outstanding.size(), region.outstanding[0].off, region.outstanding[0].size);
+    for (auto& f : findings)
+        std::printf("oracle-fail %s\n", f.c_str());
     for (auto& f : oracle.failures)
         std::printf("oracle-fail %s\n", f.c_str());
     std::printf("summary ops=%ld ok=%ld null=%ld throw=%ld grow=%ld arrays=%ld dealloc=%ld foreign=%ld moves=%ld cycles=%ld "
